@@ -234,7 +234,14 @@ func runC20(c *Ctx) {
 }
 
 func init() {
-	runners["C20"] = runC20
+	runners["C20"] = func(c *Ctx) {
+		runC20(c)
+		// the regenerated CT-IR of the same functions (Props/C20IR.lean: run of the IR = the hand-written model) against
+		// the real code: the functional validation of the IR semantics the refinement theorems rest on
+		rule := c.res.Rule
+		runC20IR(c)
+		c.res.Rule = rule + " || CT-IR: " + c.res.Rule
+	}
 	replayers["C20"] = func(c *Ctx, d Disagreement) {
 		// requests are self-contained: re-run the implementation from the request line
 		f := strings.Fields(d.Request)
